@@ -260,6 +260,13 @@ r0 = @{ (!"ab" ~ ANY)* }
 r1 = @{ (!("ab" | "c") ~ ANY)* ~ "ab" }
 r2 = { (!"b" ~ ANY)* ~ "b" }
 ''')
+    # known finding F-WS: skip rules that are not declared @/$ and contain a sequence / rule reference
+    add("s_fws", r'''
+r = { "x" ~ WHITESPACE }
+m = { "y" ~ "z" }
+wsx = { " " }
+WHITESPACE = { "a" ~ "b" | wsx }
+''')
     # kind nesting family (C07): outer kind x middle kind x inner kind, four skip configurations
     skips = {
         "n": "",
@@ -441,7 +448,7 @@ def fill(t, **kw):
     return t
 
 
-def emit_workspace(grammars, outdir, nbins, attrs="", with_pest=True, profile_note=""):
+def emit_workspace(grammars, outdir, nbins, attrs="", with_pest=True, profile_note="", prefix="b"):
     """Writes a cargo workspace with `nbins` binary crates b0..; returns {gid: bin index}."""
     os.makedirs(outdir, exist_ok=True)
     bins = [[] for _ in range(nbins)]
@@ -458,12 +465,12 @@ def emit_workspace(grammars, outdir, nbins, attrs="", with_pest=True, profile_no
     for b, glist in enumerate(bins):
         if not glist:
             continue
-        d = os.path.join(outdir, f"b{b}")
+        d = os.path.join(outdir, f"{prefix}{b}")
         os.makedirs(os.path.join(d, "src"), exist_ok=True)
-        members.append(f"b{b}")
+        members.append(f"{prefix}{b}")
         with open(os.path.join(d, "Cargo.toml"), "w") as f:
             f.write(f'''[package]
-name = "b{b}"
+name = "{prefix}{b}"
 version = "0.0.0"
 edition = "2021"
 [dependencies]
